@@ -1,7 +1,7 @@
 ----------------------------- MODULE Gen_Expr -----------------------------
 (* expression and template trees for the evaluator: bounded-exhaustive families and seeded random trees;
    the specification also knows their values (Eval), the harness prints each tree in several spellings *)
-EXTENDS Expr, Json, Randomization
+EXTENDS ExprEnv, Json, Randomization
 VARIABLES tree, envn
 gvars == <<tree, envn>>
 
@@ -20,12 +20,6 @@ Sp(e, n) == [k |-> "splat", e |-> e, name |-> n]
 I(e, sl, sr) == [k |-> "interp", e |-> e, sl |-> sl, sr |-> sr]
 T(parts) == [k |-> "str", parts |-> parts]
 
-(* variable environments (the harness builds the same values for the real evaluator) *)
-O1 == Obj(<<<<"a", IntV(1)>>, <<"b", Str(<<"b">>)>>>>)
-Envs == [e1 |-> [x |-> IntV(3), s |-> Str(<<"a", "b">>), t |-> Tup(<<IntV(1), IntV(2), IntV(3)>>), o |-> O1, n |-> Null,
-                 lo |-> Tup(<<Obj(<<<<"a", IntV(1)>>>>), Obj(<<<<"a", IntV(2)>>>>)>>), ns |-> Str(<<"7">>), bs |-> Str(TrueS)],
-         e2 |-> [x |-> Num(-1, 2), s |-> Str(<<>>), t |-> Tup(<<>>), o |-> Obj(<<>>), n |-> Null,
-                 lo |-> Tup(<<Obj(<<<<"a", Null>>>>)>>), ns |-> Str(<<"-", "2">>), bs |-> Str(FalseS)]]
 EnvNames == DOMAIN Envs
 VarNames == {"x", "s", "t", "o", "n", "lo", "ns", "bs", "u"}          \* "u" is never defined
 
@@ -94,26 +88,50 @@ RT(d) ==
          [] c = 11 -> T([i \in 1..RandomElement(1..3) |-> IF i % 2 = 1 THEN I(RT(d - 1), RandomElement(BOOLEAN), RandomElement(BOOLEAN)) ELSE RandomElement(Lits)] \o <<>>)
          [] c = 12 -> [k |-> "call", fn |-> RandomElement({"inc", "cat"}), args |-> [i \in 1..RandomElement(1..2) |-> RT(d - 1)] \o <<>>]
 RandTrees(n) == {RT(RandomElement(2..4)) : i \in 1..n}
+(* well-typed random trees: deep mixes of operators that mostly have a value *)
+RECURSIVE Nm(_), Bl(_), St(_)
+Nm(d) == IF d = 0 THEN RandomElement({N(0), N(1), N(2), N(3), N(7), V("x"), V("ns"), Ix(V("t"), N(1)), At(V("o"), "a")})
+         ELSE LET c == RandomElement(1..8) IN
+              CASE c \in {1, 2, 3, 4} -> Bin(RandomElement({"+", "-", "*", "/", "%"}), Nm(d - 1), Nm(d - 1))
+                [] c = 5 -> Un("-", Nm(d - 1))
+                [] c = 6 -> Cond(Bl(d - 1), Nm(d - 1), Nm(d - 1))
+                [] c = 7 -> [k |-> "call", fn |-> "inc", args |-> <<Nm(d - 1)>>]
+                [] c = 8 -> Nm(0)
+Bl(d) == IF d = 0 THEN RandomElement({Bo(TRUE), Bo(FALSE), V("bs")})
+         ELSE LET c == RandomElement(1..7) IN
+              CASE c \in {1, 2} -> Bin(RandomElement({"<", "<=", ">", ">=", "==", "!="}), Nm(d - 1), Nm(d - 1))
+                [] c \in {3, 4} -> Bin(RandomElement({"&&", "||"}), Bl(d - 1), Bl(d - 1))
+                [] c = 5 -> Un("!", Bl(d - 1))
+                [] c = 6 -> Bin(RandomElement({"==", "!="}), St(d - 1), St(d - 1))
+                [] c = 7 -> Cond(Bl(d - 1), Bl(d - 1), Bl(d - 1))
+St(d) == IF d = 0 THEN RandomElement({S(<<"a">>), S(<<>>), S(<<"a", " ", "b">>), V("s")})
+         ELSE LET c == RandomElement(1..4) IN
+              CASE c = 1 -> T(<<L(<<"a", " ">>), I(Nm(d - 1), RandomElement(BOOLEAN), FALSE), L(<<" ">>), I(Bl(d - 1), FALSE, RandomElement(BOOLEAN)), L(<<" ", "b">>)>>)
+                [] c = 2 -> [k |-> "call", fn |-> "cat", args |-> <<St(d - 1), St(d - 1)>>]
+                [] c = 3 -> Cond(Bl(d - 1), St(d - 1), St(d - 1))
+                [] c = 4 -> T(<<I(St(d - 1), FALSE, FALSE), L(<<"a">>)>>)
+TypedTrees(n) == {Nm(RandomElement(2..4)) : i \in 1..n} \cup {Bl(RandomElement(2..4)) : i \in 1..n} \cup {St(RandomElement(2..3)) : i \in 1..n}
 
-Emit == PrintT(<<"BEHAVIOUR", ToJson(<<[op |-> "Eval", tree |-> tree, env |-> envn]>>)>>)
+Emit == PrintT(<<"BEHAVIOUR", ToJson(<<[op |-> "Eval", tree |-> tree, env |-> envn, vars |-> Envs[envn], want |-> (LET v == Eval(tree, Envs[envn]) IN IF IsErr(v) THEN "err" ELSE IF HasBad(v) THEN "unspec" ELSE v.t)]>>)>>)
 GInit(D) == tree \in D /\ envn \in EnvNames
 Next == UNCHANGED gvars
 FlatSpec == GInit(Flat) /\ [][Next]_gvars
 PrecSpec == GInit(Prec) /\ [][Next]_gvars
 ForSpec == GInit(Fors) /\ [][Next]_gvars
 TmplSpec == GInit(Tmpls) /\ [][Next]_gvars
-RandSpec == GInit(RandTrees(1500)) /\ [][Next]_gvars
+RandSpec == GInit(RandTrees(800) \cup TypedTrees(500)) /\ [][Next]_gvars
+LawSpec == tree = N(0) /\ envn = "e1" /\ [][Next]_gvars
 (* the reference evaluator is total on everything generated, and obeys the laws any evaluator of this language must *)
 Total == Eval(tree, Envs[envn]).t \in {"num", "bool", "str", "null", "tuple", "obj", "err", "unspec"}
-LeafVals == {Eval(l, Envs[e]) : l \in Leaves, e \in EnvNames}
-Laws == \A a \in LeafVals, b \in LeafVals :
-          /\ BinOp("+", a, b) = BinOp("+", b, a) /\ BinOp("*", a, b) = BinOp("*", b, a)
-          /\ BinOp("-", a, b) = BinOp("+", a, UnOp("-", b))
-          /\ (BinOp("==", a, b).t = "bool" => BinOp("!=", a, b) = Bool(~BinOp("==", a, b).v))
-          /\ BinOp("<", a, b) = BinOp(">", b, a) /\ BinOp("<=", a, b) = BinOp(">=", b, a)
-          /\ (BinOp("<", a, b).t = "bool" => BinOp(">=", a, b) = Bool(~BinOp("<", a, b).v))
-          /\ (BinOp("&&", a, b).t = "bool" => UnOp("!", BinOp("&&", a, b)) = BinOp("||", UnOp("!", a), UnOp("!", b)))
-          /\ (BinOp("/", a, b).t = "num" => BinOp("*", BinOp("/", a, b), b) = ToNum(a))
-          /\ (BinOp("%", a, b).t = "num" => BinOp("+", BinOp("%", a, b), BinOp("*", b, BinOp("-", BinOp("/", a, b), BinOp("/", BinOp("%", a, b), b)))) = ToNum(a))
-          /\ CondResult(Bool(TRUE), a, a) = (IF IsErr(a) THEN Err ELSE IF Bad(a) THEN Unspec ELSE a)
+Laws == \A l1 \in Leaves, l2 \in Leaves, en \in EnvNames :
+          LET a == Eval(l1, Envs[en])  b == Eval(l2, Envs[en]) IN
+          /\ VEq(BinOp("+", a, b), BinOp("+", b, a)) /\ VEq(BinOp("*", a, b), BinOp("*", b, a))
+          /\ VEq(BinOp("-", a, b), BinOp("+", a, UnOp("-", b)))
+          /\ (BinOp("==", a, b).t = "bool" => VEq(BinOp("!=", a, b), Bool(~BinOp("==", a, b).v)))
+          /\ VEq(BinOp("<", a, b), BinOp(">", b, a)) /\ VEq(BinOp("<=", a, b), BinOp(">=", b, a))
+          /\ (BinOp("<", a, b).t = "bool" => VEq(BinOp(">=", a, b), Bool(~BinOp("<", a, b).v)))
+          /\ (BinOp("&&", a, b).t = "bool" => VEq(UnOp("!", BinOp("&&", a, b)), BinOp("||", UnOp("!", a), UnOp("!", b))))
+          /\ (BinOp("/", a, b).t = "num" => VEq(BinOp("*", BinOp("/", a, b), b), ToNum(a)))
+          /\ (BinOp("%", a, b).t = "num" => LET q == BinOp("/", BinOp("-", a, BinOp("%", a, b)), b) IN q.d = 1 /\ VEq(BinOp("+", BinOp("*", q, b), BinOp("%", a, b)), ToNum(a)))
+          /\ VEq(CondResult(Bool(TRUE), a, a), IF IsErr(a) THEN Err ELSE IF Bad(a) THEN Unspec ELSE a)
 =============================================================================
